@@ -1,4 +1,5 @@
 import ScnrVerif.Proofs.World
+import ScnrVerif.Proofs.CacheKey
 /-!
 # C13 — the scanner cache is transparent
 
@@ -46,5 +47,47 @@ def exCompile : CfgId → Option CompId := fun c => if c = 2 then none else some
 example : (World.run exCompile (fun _ => []) (fun _ _ _ => none) World.empty
     [.build 0 1, .build 1 1, .build 2 2, .build 3 2, .build 4 3]).2 =
     [.built 11, .built 11, .buildError, .buildError, .built 13] := by decide
+
+/-! ## The key, structurally (`Model/CacheKey.lean`)
+
+`keyEq` is the derived `PartialEq` of `Vec<ScannerMode>` written out field by field. It is equality
+of the whole configuration, so a difference in any field — a token type, the order of two
+patterns, a lookahead or its polarity, a transition, a mode name — is a different key. -/
+
+theorem key_is_whole_configuration (a b : List ModeC) : keyEq a b = true ↔ a = b := keyEq_iff a b
+
+/-- Every cached build over structural keys returns the uncached compilation of *that*
+    configuration, after any sequence of builds, and the invariant is kept. -/
+theorem structural_builds_are_uncached (compileK : CfgKey → Option CompId) (ks : List CfgKey) :
+    (runK compileK [] ks).2 = ks.map compileK :=
+  (runK_results compileK [] ks (fun p hp => by cases hp)).1
+
+theorem structural_get_is_compile (compileK : CfgKey → Option CompId) (cache : List (CfgKey × CompId))
+    (h : CacheInvK compileK cache) (k : CfgKey) :
+    (cacheGetK compileK cache k).2 = compileK k ∧ CacheInvK compileK (cacheGetK compileK cache k).1 ∧
+    (compileK k = none → (cacheGetK compileK cache k).1 = cache) := cacheGetK_spec compileK cache h k
+
+/-- The identifier-level cache of the world model is the structural cache under any injective
+    numbering of configurations (the harness numbers them by `==` of the real mode lists, and
+    that `==` is compared with `keyEq` on every run). -/
+theorem structural_cache_refines_id_cache (num : CfgKey → CfgId) (inj : ∀ a b, num a = num b → a = b)
+    (compileK : CfgKey → Option CompId) (compile : CfgId → Option CompId)
+    (hc : ∀ k, compile (num k) = compileK k) (cache : List (CfgKey × CompId)) (k : CfgKey) :
+    cacheGet compile (absCache num cache) (num k) =
+      (absCache num (cacheGetK compileK cache k).1, (cacheGetK compileK cache k).2) :=
+  cacheGetK_refines num inj compileK compile hc cache k
+
+/-! Non-vacuity: one-field differences are different keys; equal configurations are equal keys. -/
+def exMode : ModeC := ⟨[73], [⟨[97], 1, some ⟨true, [98]⟩⟩, ⟨[97, 98], 2, none⟩], [(1, 0)]⟩
+example : keyEq [exMode] [exMode] = true := by decide
+example : keyEq [exMode] [{ exMode with name := [74] }] = false := by decide
+example : keyEq [exMode] [{ exMode with transitions := [(1, 1)] }] = false := by decide
+example : keyEq [exMode] [{ exMode with patterns := exMode.patterns.reverse }] = false := by decide
+example : keyEq [exMode] [{ exMode with patterns := [⟨[97], 1, some ⟨false, [98]⟩⟩, ⟨[97, 98], 2, none⟩] }] = false := by decide
+example : keyEq [exMode] [{ exMode with patterns := [⟨[97], 1, none⟩, ⟨[97, 98], 2, none⟩] }] = false := by decide
+example : keyEq [exMode] [{ exMode with patterns := [⟨[97], 3, some ⟨true, [98]⟩⟩, ⟨[97, 98], 2, none⟩] }] = false := by decide
+example : keyEq [exMode] [exMode, exMode] = false := by decide
+example : (runK (fun k => if k.length = 2 then none else some k.length) [] [[exMode], [exMode, exMode], [exMode], []]).2 =
+    [some 1, none, some 1, some 0] := by decide
 
 end Scnr.C13
